@@ -69,6 +69,19 @@ CONFIGS = {
                                  'windows': {'bases': ('tick', 'hook'), 'ks': (0, 1, 2, 3, 4, 5),
                                              'changes': ('label', 'review', 'target', 'push')}},
                                 ROOTS2, {'quick': None, 'thorough': 4}),
+    # the k-th GitHub request of a CI pass (ref fetch, PR list, rollup query, status POST, merge PUT) fails with a 502;
+    # the real exception paths run (the update aborts / the status POST failure is swallowed / the merge is skipped)
+    'github-fault-two-prs': ({'prs': (1, 2), 'knobs': (), 'ext': 'sf', 'faults': {'ks': (0, 1, 2, 3, 4, 5), 'max': 1}},
+                             ROOTS2, {'quick': 3, 'thorough': None}),
+    'github-fault-one-pr': ({'prs': (1,), 'knobs': ('label', 'review', 'target'), 'ext': 'sf',
+                             'faults': {'ks': (0, 1, 2, 3, 4), 'max': 1}},
+                            ROOTS1, {'quick': 4, 'thorough': None}),
+    'github-fault-two-prs-full': ({'prs': (1, 2), 'knobs': ('label', 'review', 'target'), 'ext': 'sf',
+                                   'faults': {'ks': (0, 1, 2, 3, 4, 5, 6, 7), 'max': 2}},
+                                  ROOTS2, {'quick': None, 'thorough': 4}),
+    'github-fault-one-pr-full': ({'prs': (1,), 'knobs': ('label', 'review', 'target', 'push'), 'ext': 'sf',
+                                  'faults': {'ks': (0, 1, 2, 3, 4, 5), 'max': 2}},
+                                 ROOTS1, {'quick': None, 'thorough': 5}),
 }
 STATE_CAP = 5_000_000
 
@@ -138,6 +151,8 @@ def _expand_chunk(items):
                 d = _digest((s2.world.canon(), _digest(s2.ci_canon())))
             for k, n in c.items():
                 counters[k] = counters.get(k, 0) + n
+            if c.get('faults_not_reached') or c.get('windows_not_reached'):
+                continue  # the pass never got to its k-th request: identical to the plain event, which is explored too
             for sig, msg in v:
                 old = viols.get(sig)
                 if old is None or _hkey(h2) < _hkey(old[0]):
@@ -340,6 +355,8 @@ def check(tier, seed, procs):
         'merge_puts_rejected_stale_head_409': counters.get('merge_rejected_409_head_moved', 0),
         'graphql_rollup_pages_beyond_first': counters.get('graphql_pages_beyond_first', 0),
         'midpass_webhook_windows_fired': counters.get('windows_fired', 0),
+        'github_request_failures_injected': sum(x for k, x in counters.items() if k.startswith('github_faults_on_')),
+        'ci_passes_aborted_by_github_failure': counters.get('ci_pass_aborted_by_github_failure', 0),
         'clauses_excused_change_inside_merging_pass': counters.get('clauses_excused_change_inside_merging_pass', 0),
         'ci_update_passes': counters.get('ticks', 0) + counters.get('batch_callbacks', 0)
         + sum(x for k, x in counters.items() if k.startswith('webhooks_')),
@@ -355,6 +372,8 @@ def check(tier, seed, procs):
         vac = 'the status rollup never needed a second GraphQL page'
     elif counters.get('windows_fired', 0) == 0:
         vac = 'no mid-pass webhook window ever fired'
+    elif counters.get('ci_pass_aborted_by_github_failure', 0) == 0:
+        vac = 'no injected GitHub failure ever aborted a CI pass'
     return {
         'coverage': cov,
         'violations': violations,
